@@ -5,6 +5,7 @@ import (
 	"errors"
 	"fmt"
 	"io"
+	"math/big"
 	"reflect"
 	"sort"
 	"strconv"
@@ -193,6 +194,32 @@ func (s *scriptedReader) Read(p []byte) (int, error) {
 	return n, nil
 }
 
+// patReader: an endless crypto/rand.Reader that repeats a byte pattern (adversarial random
+// draws: all ones, all zeros, near-maximum words, alternating bits), optionally one byte
+// per Read (short reads).
+type patReader struct {
+	pat   []byte
+	i     int
+	short bool
+}
+
+func (p *patReader) Read(b []byte) (int, error) {
+	n := len(b)
+	if p.short && n > 1 {
+		n = 1
+	}
+	for k := 0; k < n; k++ {
+		b[k] = p.pat[p.i%len(p.pat)]
+		p.i++
+	}
+	return n, nil
+}
+
+var advPatterns = [][]byte{
+	{0xff}, {0x00}, {0xff, 0xff, 0xff, 0x9c}, {0xff, 0xff, 0xff, 0x80}, {0xff, 0xff, 0xff, 0x7f},
+	{0xaa, 0x55}, {0x80, 0x00, 0x00, 0x00}, {0x7f, 0xff, 0xff, 0xff}, {0x00, 0x00, 0x00, 0x01}, {0xfe}, {0x01, 0x02, 0x03, 0x04, 0x05},
+}
+
 // extraIdGen ties IdGenerator.Generate (real clock, crypto/rand.Reader scripted so that
 // the random part is known) to the Lean function `compose` through the oracle
 // executable: the returned id must be compose(rb, ms, r) for some millisecond count ms
@@ -212,11 +239,15 @@ func extraIdGen(ctx *core.Ctx) (int, string, []core.ExtraFailure) {
 		scriptedRandom bool
 	}
 	var all []obs
+	adversarial := 0
 	offsets := []time.Duration{0, time.Second, time.Hour, 24 * time.Hour * 365 * 3,
 		time.Duration(1<<41-1500) * time.Millisecond, // the 41-bit time field is about to wrap
 		time.Duration(1<<41+777) * time.Millisecond,  // ... has wrapped
 		time.Duration(1<<42+5) * time.Millisecond,
 		-time.Hour, // start time in the future: negative elapsed time
+		24 * time.Hour * 365 * 34, 24 * time.Hour * 365 * 35, 24 * time.Hour * 365 * 40, // around 2^40 ms = 34.8 years: bit 40 of the time field
+		time.Since(time.Unix(0, 0)),
+		-24 * time.Hour * 365 * 100, // far future
 	}
 	rounds := 1
 	if ctx.Tier == "thorough" {
@@ -234,7 +265,25 @@ func extraIdGen(ctx *core.Ctx) (int, string, []core.ExtraFailure) {
 			for _, off := range offsets {
 				start := time.Now().Add(-off)
 				g := randz.NewIdGenerator(start, rb)
-				for rep := 0; rep < 3; rep++ {
+				for rep := 0; rep < 3+len(advPatterns); rep++ {
+					if rep >= 3 {
+						// adversarial draws: what crypto/rand.Int makes of the same bytes is the reference
+						pat := advPatterns[rep-3]
+						short := ctx.Rand.Chance(30)
+						ref, err := srand.Int(&patReader{pat: pat, short: short}, big.NewInt(1<<uint(eff)))
+						if err != nil {
+							continue
+						}
+						srand.Reader = &patReader{pat: pat, short: short}
+						before := time.Since(start).Milliseconds()
+						id := g.Generate()
+						after := time.Since(start).Milliseconds()
+						srand.Reader = saved
+						evals++
+						adversarial++
+						all = append(all, obs{rb, eff, before, after, ref.Int64(), int64(id), true})
+						continue
+					}
 					var r int64
 					switch rep {
 					case 0:
@@ -267,6 +316,7 @@ func extraIdGen(ctx *core.Ctx) (int, string, []core.ExtraFailure) {
 		}
 	}
 	// independent layout check
+	srcDiffers := 0
 	mask := int64(1)<<41 - 1
 	for _, o := range all {
 		t := o.id >> uint(o.eff)
@@ -277,12 +327,22 @@ func extraIdGen(ctx *core.Ctx) (int, string, []core.ExtraFailure) {
 				okTime = true
 			}
 		}
-		if o.id < 0 || !okTime || (o.scriptedRandom && low != o.r) {
+		if okTime && o.id >= 0 && o.scriptedRandom && low != o.r {
+			// the random part is below 2^randBit and the time field is right: the property holds; only
+			// the way Generate turns the bytes of crypto/rand.Reader into the random part differs from
+			// crypto/rand.Int (what the harness scripts against) — a model/harness mismatch, no violation
+			srcDiffers++
+			continue
+		}
+		if o.id < 0 || !okTime {
 			if len(fails) < 3 {
 				fails = append(fails, core.ExtraFailure{Failure: core.Failure{Key: "id-layout", Desc: fmt.Sprintf("NewIdGenerator(now-%dms.., %d).Generate() = %d: time field %d (elapsed ms in [%d,%d], 41 bits), random part %d (crypto/rand scripted to %d, %d bits)", o.before, o.rb, o.id, t, o.before, o.after, low, o.r, o.eff)},
 					Payload: map[string]any{"randBit": o.rb, "elapsed_ms": []int64{o.before, o.after}, "rand": o.r, "id": o.id}})
 			}
 		}
+	}
+	if srcDiffers > 0 {
+		fails = append(fails, core.ExtraFailure{Failure: core.Failure{Key: "id-random-source-model", Desc: fmt.Sprintf("%d of %d Generate() calls: layout correct, but the random part is not what crypto/rand.Int(Reader, 2^randBit) makes of the scripted bytes (the harness's assumption about how the random source is consumed no longer holds)", srcDiffers, len(all))}, NoInput: true})
 	}
 	// tie to the Lean model: id ∈ { compose rb ms r | before ≤ ms ≤ after }
 	var cases []core.Case
@@ -390,7 +450,7 @@ func extraIdGen(ctx *core.Ctx) (int, string, []core.ExtraFailure) {
 	if d < 0 {
 		fails = append(fails, core.ExtraFailure{Failure: core.Failure{Key: "id-layout", Desc: fmt.Sprintf("randz.Id() = %d is negative", d)}, Payload: map[string]any{"id": int64(d)}})
 	}
-	return evals, fmt.Sprintf("%d Generate() calls with the real clock (offsets incl. 2^41 ms wrap and a future start time), %d tied to the Lean compose via the oracle, %d increasing-ID checks; %d calls with crypto/rand failing (randBit 2,3,4,8,18): time field within the bracket every time", len(all), tied, mono, fallback), fails
+	return evals, fmt.Sprintf("%d Generate() calls with the real clock (start times now, -1s … -34y, -35y, -40y, 1970-01-01, the 2^41 ms wrap, +1h, +100y; randBit requests -1..24), of which %d with adversarial crypto/rand draws (all 0xFF, all 0x00, near-maximum words, alternating, short reads), %d tied to the Lean compose via the oracle, %d increasing-ID checks; %d calls with crypto/rand failing (randBit 2,3,4,8,18): time field within the bracket every time", len(all), adversarial, tied, mono, fallback), fails
 }
 
 // extraStrReal: StrGenerator over the package's real LockRandSource and the default
